@@ -105,3 +105,6 @@ Print Assumptions C03_generated_key_signs_like_its_bytes.
 Print Assumptions C03_sign_uses_exactly_rnd.
 Print Assumptions C03_hash_sign_uses_exactly_rnd.
 Print Assumptions C03_prehash_table.
+(* T2: the XOF plumbing and the samplers of hashing.rs have the structure the model mirrors *)
+Require F204.Proofs.SourcePins.
+Check F204.Proofs.SourcePins.hashing_skeleton_pinned.
